@@ -17,53 +17,7 @@ func init() {
 }
 
 func runC18(c *Ctx) {
-	idx := "((proof.SuffrageHeight() - φ(base.LoadSuffrageNodesStateValue(previous)#0.Height()|base.NilHeight)) - 1).Int64()"
-	c.Rule("R18.1", "BoundsGuard")
-	if fn := c.Need("isaac.(*SuffrageStateBuilder).prove"); fn != nil {
-		st := c.StoresD(fn, "&proofs["+idx+"]")
-		c.MP(fn, "slot store: index >= 0", st, 1, GCmp(idx, ">=", "0"))
-		c.MP(fn, "slot store: index < len(proofs)", st, 1, GCmp(idx, "<", "len(proofs)"))
-		c.StoredIs(fn, "slot takes the fetched proof", st, 1, "proof")
-		// neighbour reads
-		var reads []ssa.Instruction
-		for _, in := range allInstrs(fn) {
-			if ia, ok := in.(*ssa.IndexAddr); ok && c.D(ia.X) == "proofs" && ssa.Instruction(ia) != nil {
-				if refs := ia.Referrers(); refs != nil {
-					isStore := false
-					for _, r := range *refs {
-						if s, ok := r.(*ssa.Store); ok && s.Addr == ssa.Value(ia) {
-							isStore = true
-						}
-					}
-					if !isStore {
-						reads = append(reads, in)
-					}
-				}
-			}
-		}
-		if c.Exists(fn, "neighbour slot reads", reads, 2) {
-			for _, in := range reads {
-				d := c.D(in.(*ssa.IndexAddr).Index)
-				switch d {
-				case "(" + idx + " - 1)":
-					c.MP(fn, "predecessor slot read only for index > 0", []ssaInstr{in}, 1, GCmp(idx, ">", "0"))
-				case "(" + idx + " + 1)":
-					c.MP(fn, "successor slot read only inside the slice", []ssaInstr{in}, 1, GCmp("("+idx+" + 1)", "<", "len(proofs)"))
-				default:
-					c.Report(fn, "neighbour slot read at a tabled offset", c.InstrPos(in), false, d)
-				}
-			}
-		}
-		// R18.3 inside prove
-		c.Rule("R18.3", "MustPass")
-		succ := c.SuccessReturns(fn)
-		c.MP(fn, "success: first slot proved against the local previous state", succ, 1, GCmp(idx, "!=", "0"), GOk("proof.Prove(previous)"))
-		c.MP(fn, "success: proved against the stored predecessor", succ, 1, GCmp(idx, "<=", "0"), GNil("proofs[("+idx+" - 1)]"),
-			GOk("proof.Prove(proofs[("+idx+" - 1)].State())"))
-		c.MP(fn, "success: the stored successor proved against it", succ, 1, GCmp("("+idx+" + 1)", ">=", "len(proofs)"), GNil("proofs[("+idx+" + 1)]"),
-			GOk("proofs[("+idx+" + 1)].Prove(proof.State())"))
-		c.MP(fn, "success: slot stored", succ, 1, GStored("&proofs["+idx+"]"))
-	}
+	builderProveRules(c, "R18.1", "R18.3")
 	if parent := c.Need("isaac.(*SuffrageStateBuilder).buildBatch"); parent != nil {
 		req := "(i + from)"
 		fetched := "call(s.getSuffrageProof)(ctx, " + req + ")"
@@ -124,4 +78,56 @@ func GStoredVal(valPat string) Gate {
 		st, ok := in.(*ssa.Store)
 		return ok && pp.Match(p.D(st.Val))
 	}}
+}
+
+// builderProveRules: slot discipline and neighbour proving of SuffrageStateBuilder.prove (shared by
+// C13 — proofs are accepted only if they follow the previous state — and C18).
+func builderProveRules(c *Ctx, boundsRule, proveRule string) {
+	idx := "((proof.SuffrageHeight() - φ(base.LoadSuffrageNodesStateValue(previous)#0.Height()|base.NilHeight)) - 1).Int64()"
+	c.Rule(boundsRule, "BoundsGuard")
+	if fn := c.Need("isaac.(*SuffrageStateBuilder).prove"); fn != nil {
+		st := c.StoresD(fn, "&proofs["+idx+"]")
+		c.MP(fn, "slot store: index >= 0", st, 1, GCmp(idx, ">=", "0"))
+		c.MP(fn, "slot store: index < len(proofs)", st, 1, GCmp(idx, "<", "len(proofs)"))
+		c.StoredIs(fn, "slot takes the fetched proof", st, 1, "proof")
+		// neighbour reads
+		var reads []ssa.Instruction
+		for _, in := range allInstrs(fn) {
+			if ia, ok := in.(*ssa.IndexAddr); ok && c.D(ia.X) == "proofs" && ssa.Instruction(ia) != nil {
+				if refs := ia.Referrers(); refs != nil {
+					isStore := false
+					for _, r := range *refs {
+						if s, ok := r.(*ssa.Store); ok && s.Addr == ssa.Value(ia) {
+							isStore = true
+						}
+					}
+					if !isStore {
+						reads = append(reads, in)
+					}
+				}
+			}
+		}
+		if c.Exists(fn, "neighbour slot reads", reads, 2) {
+			for _, in := range reads {
+				d := c.D(in.(*ssa.IndexAddr).Index)
+				switch d {
+				case "(" + idx + " - 1)":
+					c.MP(fn, "predecessor slot read only for index > 0", []ssaInstr{in}, 1, GCmp(idx, ">", "0"))
+				case "(" + idx + " + 1)":
+					c.MP(fn, "successor slot read only inside the slice", []ssaInstr{in}, 1, GCmp("("+idx+" + 1)", "<", "len(proofs)"))
+				default:
+					c.Report(fn, "neighbour slot read at a tabled offset", c.InstrPos(in), false, d)
+				}
+			}
+		}
+		// R18.3 inside prove
+		c.Rule(proveRule, "MustPass")
+		succ := c.SuccessReturns(fn)
+		c.MP(fn, "success: first slot proved against the local previous state", succ, 1, GCmp(idx, "!=", "0"), GOk("proof.Prove(previous)"))
+		c.MP(fn, "success: proved against the stored predecessor", succ, 1, GCmp(idx, "<=", "0"), GNil("proofs[("+idx+" - 1)]"),
+			GOk("proof.Prove(proofs[("+idx+" - 1)].State())"))
+		c.MP(fn, "success: the stored successor proved against it", succ, 1, GCmp("("+idx+" + 1)", ">=", "len(proofs)"), GNil("proofs[("+idx+" + 1)]"),
+			GOk("proofs[("+idx+" + 1)].Prove(proof.State())"))
+		c.MP(fn, "success: slot stored", succ, 1, GStored("&proofs["+idx+"]"))
+	}
 }
